@@ -121,6 +121,7 @@ class JobParseGz():
 
     def run(self, filename):
         not_found = None
+        lines = None
         try:
             lines = list(read_clean_gzfile(filename,
                                            break_duration=self.break_duration))
